@@ -58,7 +58,8 @@ def node_span(debug=bool(__import__("os").environ.get("NODE_SPAN_DEBUG"))):
     first delivery), then only cache-hit / route-decision events, and exactly one closing event (NodeEnd when the node's
     outputs are used, NodeError when an Exception leaves the node) as the LAST delivery; the closing and cache-hit events
     are built from the span id the start builder returned, and every builder is given this run's id, this run's span and
-    this node.  An inactive dispatcher is handed nothing.  (The fields of the events are the builders' own contracts,
+    this node; while the node runs, the executor closure's span holder holds this node's span id (the parent of a nested
+    run).  An inactive dispatcher is handed nothing.  (The fields of the events are the builders' own contracts,
     c_event_helpers.py.)  Not covered: a path on which a delivery itself raised (a strict dispatcher's processor failure),
     and a non-Exception BaseException leaving the node (pause / interpreter shutdown: the run does not terminate
     "completed or failed", outside C12's quantifier) - there at most one closing event may have been delivered."""
@@ -84,9 +85,15 @@ def node_span(debug=bool(__import__("os").environ.get("NODE_SPAN_DEBUG"))):
             return False
         sid, start_evt = starts[0][1]["_result"].items
         active = truth(env["active"], s)
+        base = []
+        if any(e[0] == "call" and str(e[1]).endswith("execute_node") for e in tr):
+            # the executor closure's span holder carries THIS node's span while the node runs (nested runs take it as their
+            # parent span, c_execute_node.py / c_nested.py); nothing between the store and the end of the step rewrites it
+            has = ex.eval_clause("hasattr(execute_node, 'current_span_id')", s)
+            base.append(z3.Implies(has, ex.eval_pure("execute_node.current_span_id[0]", s) == _val_t(sid)))
         if not emits:
-            return z3.Not(active)
-        conds = [active]
+            return z3.And(z3.Not(active), *base)
+        conds = [active] + base
         kinds = []
         for em in emits:
             ev_t = _val_t(em.get("event"))
